@@ -1,12 +1,7 @@
 #!/usr/bin/env python3
 """Regenerates /verif/MANIFEST.json from the table below and validates it (python3-vt has jsonschema)."""
 import json, sys
-CLAIMED = {
- # id: (technique, level text, level note, design ref)
- "C06": ("property-based testing (rapid): generated interval pairs vs exact big-integer reference (brute force, corner analysis, Hacker's-Delight min/max AND/OR)",
-         "Generated-input search: ~1M (quick) / 5M (thorough) generated (op, X, Y) cases per run checked for containment, exact tightness on finite boxes, failure-reporting and aliasing against an independent reference; absence is not established.",
-         "Trusts math/big; values up to 4000 bits; shifts above 2^17 only via three fixed thorough-tier cases.", "DESIGN.md §4 C06"),
-}
+CLAIMED = json.load(open('/verif/tools/claimed.json'))  # id -> [technique, level text, level note, design ref]
 NA_REASON = "check not built yet (machinery under construction in build order DESIGN.md §8); will be claimed once its check runs green on the unchanged tree"
 props = [json.loads(l)["id"] for l in open('/verif/properties.jsonl')]
 checks = []
